@@ -68,6 +68,9 @@ async fn run_command(
     cmd.args(program_args);
     cmd.stdout(std::process::Stdio::piped());
     cmd.stderr(std::process::Stdio::piped());
+    // The runner drops this future when the tool times out and the caller then releases the
+    // workspace lock: the child must not outlive it.
+    cmd.kill_on_drop(true);
 
     if let Some(cwd) = args.cwd.as_deref() {
         match resolve_path(&config.workspace_root, cwd) {
